@@ -47,8 +47,10 @@ def check(run):
         for name in ('ts_vargmin_to', 'ts_vmin_to', 'ts_vargmax_to', 'ts_vmax_to'):
             extreme_kernel(run, models[name], rev=('max' in name), arg=('arg' in name))
         for a, b in (('ts_vmin_to', 'ts_vmax_to'), ('ts_vargmin_to', 'ts_vargmax_to')):
+            # `idx <= start` is an accepted variant of the expiry test (see EXT.expiry)
             sib.check_pair(run, 'SIB.mirror', ks[a].fn, ks[b].fn, ks[a].fn.hir, ks[b].fn.hir,
-                           subst_b=(('sort_cmp_rev', 'sort_cmp'),))
+                           subst_a=((' <= ', ' < '),),
+                           subst_b=(('sort_cmp_rev', 'sort_cmp'), (' <= ', ' < ')))
         rank_kernel(run, models['ts_vrank_to'])
         zscore(run, models['ts_vzscore_to'])
         minmax(run, models['ts_vminmaxnorm_to'])
